@@ -342,8 +342,24 @@ class StmtMixin:
         return out
 
     # ------------------------------------------------------------ assignment
+    def _field_literal_hint(self, st, n):
+        """`self.x = {}` / `self.x: T = {}`: an empty dict literal takes the declared type of the field it is stored in (used when the
+        contract gives no `hints` entry for it)"""
+        tgts = n.targets if isinstance(n, ast.Assign) else [n.target]
+        self._literal_hint = None
+        if isinstance(n.value, ast.Dict) and not n.value.keys and len(tgts) == 1 and isinstance(tgts[0], ast.Attribute) \
+                and isinstance(tgts[0].value, ast.Name):
+            obj, _ = st.lookup(tgts[0].value.id)
+            cls = getattr(obj, 'cls', None)
+            ty = self.reg.field_type(cls, tgts[0].attr) if cls is not None else None
+            while ty is not None and ty[0] == 'opt':
+                ty = ty[1]
+            if ty is not None and ty[0] == 'dict':
+                self._literal_hint = ty
+
     def s_Assign(self, st, n):
         out = []
+        self._field_literal_hint(st, n)
         for s, v in self.eval(st, n.value):
             if s.exc is not None:
                 out.append(s)
@@ -364,6 +380,7 @@ class StmtMixin:
         if n.value is None:
             return [st]
         out = []
+        self._field_literal_hint(st, n)
         for s, v in self.eval(st, n.value):
             if s.exc is not None:
                 out.append(s)
@@ -985,6 +1002,24 @@ class StmtMixin:
             it = VFunc('dictiter', dict=it, mode='keys')        # iterating a dict / set visits its keys
         if isinstance(it, VFunc) and it.kind == 'dictiter':
             return self.for_over_dict(st, n, it, ordinal, invs)
+        if isinstance(it, VFunc) and it.kind == 'range':
+            # for x in range(lo, hi): an index running from lo while it is below hi (step 1)
+            if ordinal is None:
+                self.unsupported(n, 'loop inside an inlined callee (needs its own contract)')
+            idx_name = '$i%d' % ordinal
+            st.frames[st.cur][idx_name] = VInt(it.lo)
+            lo, hi = it.lo, it.hi
+
+            def rguard(s):
+                i, _ = s.lookup(idx_name)
+                return [(s, i.t < hi)]
+
+            def rpre_body(s):
+                i, fid = s.lookup(idx_name)
+                s.frames[fid][idx_name] = VInt(i.t + 1)
+                return self.assign(s, n.target, VInt(i.t), n)
+            rinv0 = lambda ctx: z3.And(ctx.st.lookup(idx_name)[0].t >= lo, z3.Or(ctx.st.lookup(idx_name)[0].t <= hi, hi < lo))
+            return self.run_loop_indexed(st, n, ordinal, [rinv0] + list(invs), rguard, rpre_body, idx_name)
         if isinstance(it, (VSeq, VBytes)):
             if ordinal is None:
                 self.unsupported(n, 'loop inside an inlined callee (needs its own contract)')
